@@ -12,14 +12,18 @@ from harness.sexp import dumps, loads
 
 PROP = "C07"
 TRUSTED_BASE = [
-    "Coq 8.16.1 kernel (coqc); vm_compute over the finite domain relation kind x formal attribute; no native_compute",
-    "model: coq/theories/Rdf.v — the predicate logic of provrdf.py for qualified relations: the writer's cascade of "
-    "substring tests that picks the RDF predicate for an attribute of a relation of a given kind, and the reader's "
-    "predicate_mapper + kind-dependent substring tests that read it back; relation_mapper / predicate_mapper are generated "
-    "from /repo. The quad-level structure (qualified-influence pattern, bnodes, unqualified forms, literal mapping, TriG) is "
-    "NOT modelled: it is decided by the direct round-trip oracle",
-    "tie: for every relation kind and attribute the model's predicate is compared with the predicate found in the "
-    "implementation's graph, and the attribute read back with the model's",
+    "Coq 8.16.1 kernel (coqc); vm_compute over finite domains (relation kind x formal attribute; relation shapes and pairs of "
+    "shapes); no native_compute",
+    "model: coq/theories/Rdf.v — the predicate logic of provrdf.py for qualified relations (the writer's cascade of substring "
+    "tests, the reader's predicate_mapper + kind-dependent substring tests); coq/theories/Rdfq.v — the quad-level structure "
+    "for relation records (binary triple, qualified node and what it carries, typed nodes, link from the subject, the fold of "
+    "binary association/delegation triples as repaired). relation_mapper, predicate_mapper and every kind list the two "
+    "functions test membership in are generated from /repo on every run (the model follows the source). Elements, bundles "
+    "(named graphs), literal mapping and TriG are NOT modelled: they are decided by the direct round-trip oracle",
+    "tie: for every relation kind and attribute the model's predicate is compared with the predicate in the implementation's "
+    "graph; for every document of the shape sweep the model's graph is compared with the implementation's up to blank-node "
+    "renaming (rdflib.compare.isomorphic, literals as tokens) and the model's decoded relations with the implementation's",
+    "values are opaque tokens in Rdfq.v: the theorems quantify over the finite shape family, not over values (partial)",
     "rdflib (TriG writer/parser, literal <-> Python value mapping, compute_qname, store iteration order) is trusted; the "
     "oracle re-runs the decoder on shuffled quad orders",
 ]
@@ -143,6 +147,88 @@ def shape_sweep(tier):
                 yield ("%s pair %r %r same_obj=%s" % (t.localpart, s1, s2, same_obj), d)
 
 
+def rel_descriptors(d):
+    """the relation records of a (bundle-free) document as the quad-level model sees them"""
+    import datetime
+    import prov.model as M
+    from prov.identifier import QualifiedName
+
+    def o(v):
+        if isinstance(v, QualifiedName):
+            return ["u", v.uri]
+        if isinstance(v, datetime.datetime):
+            return ["l", "t:"]
+        if isinstance(v, bool):
+            return ["l", "b:" + str(v)]
+        if isinstance(v, int):
+            return ["l", "i:%d" % v]
+        return ["l", "s:" + str(v)]
+    out = []
+    for r in d.get_records():
+        if not r.is_relation():
+            continue
+        fa = [o(v) if v is not None else "none" for _, v in r.formal_attributes]
+        out.append(["rel", r.get_type().localpart, r.identifier.uri if r.identifier is not None else "none", fa,
+                    [[a.uri, o(v)] for a, v in r.extra_attributes]])
+    return out
+
+
+def canon_rel(x):
+    return (x[1], x[2], tuple(tuple(f) if isinstance(f, list) else f for f in x[3]),
+            frozenset((a, tuple(v)) for a, v in x[4]))
+
+
+def structure_correspondence(docs):
+    """model Rdfq.enc_all / dec vs the implementation: the graph written (up to blank-node renaming, literals as
+    tokens) and the relations read back, for every document of the shape sweep"""
+    import datetime
+    import prov.model as M
+    from rdflib import ConjunctiveGraph, Graph, URIRef, BNode, Literal
+    from rdflib.compare import isomorphic
+    reqs = [dumps(["rdfq"] + rel_descriptors(d)) for _, d in docs]
+    outs = [loads(x) for x in common.run_model_batch(reqs)]
+    bad = []
+
+    def tok(l):
+        v = l.toPython()
+        if isinstance(v, datetime.datetime):
+            return "t:"
+        if isinstance(v, bool):
+            return "b:" + str(v)
+        if isinstance(v, int):
+            return "i:%d" % v
+        return "s:" + str(l)
+    for (desc, d), out in zip(docs, outs):
+        if not isinstance(out, list) or len(out) != 2:
+            bad.append({"shape": desc, "model": str(out)[:200]})
+            continue
+        mtriples, mrels = out
+        gm = Graph()
+
+        def term(x):
+            return URIRef(x[1]) if x[0] == "u" else (BNode("m" + x[1]) if x[0] == "b" else Literal(x[1]))
+        for s_, p_, o_ in mtriples:
+            gm.add((term(s_), URIRef(p_), term(o_)))
+        text = d.serialize(format="rdf")
+        gi0 = ConjunctiveGraph()
+        gi0.parse(data=text, format="trig")
+        gi = Graph()
+        for s_, p_, o_ in gi0.triples((None, None, None)):
+            gi.add((s_, p_, Literal(tok(o_)) if isinstance(o_, Literal) else o_))
+        if not isomorphic(gm, gi):
+            bad.append({"shape": desc, "what": "the graph written differs from the model's",
+                        "model_only": sorted(str(t) for t in (gm - gi))[:6], "implementation_only": sorted(str(t) for t in (gi - gm))[:6]})
+            continue
+        d2 = M.ProvDocument.deserialize(content=text, format="rdf")
+        got = {canon_rel(x) for x in rel_descriptors(d2)}
+        want = {canon_rel(x) for x in mrels}
+        if got != want:
+            bad.append({"shape": desc, "what": "the relations read back differ from the model's",
+                        "model_only": [str(x)[:300] for x in (want - got)][:3],
+                        "implementation_only": [str(x)[:300] for x in (got - want)][:3]})
+    return len(docs), bad
+
+
 def predicate_correspondence():
     """model Rdf.enc_pred / dec_pred vs the implementation, for every relation kind x attribute"""
     import datetime
@@ -255,8 +341,10 @@ def run(tier, seed, log, model_runs=True, enlarged=False):
     log("round-tripped %d documents (x%d shuffled decodings) in %.1fs" % (n, shuffles, time.time() - t0))
     t1 = time.time()
     nsweep = 0
+    sweep_docs = []
     for desc, d in shape_sweep(tier):
         nsweep += 1
+        sweep_docs.append((desc, d))
         try:
             fails = roundtrip_case(d, rng, 1)
         except Exception:
@@ -273,6 +361,14 @@ def run(tier, seed, log, model_runs=True, enlarged=False):
         for b in bad[:2]:
             disagreements.append({"first_difference": json.dumps(b)[:900],
                                   "theorem": "correspondence Rdf.enc_pred / dec_pred ~ provrdf encode_container / decode_container"})
+        t2 = time.time()
+        nst, bad2 = structure_correspondence(sweep_docs)
+        npred += nst
+        log("structure correspondence: %d shape documents, %d disagreements in %.1fs" % (nst, len(bad2), time.time() - t2))
+        for b in bad2[:2]:
+            disagreements.append({"first_difference": json.dumps(b)[:1200],
+                                  "theorem": "correspondence Rdfq.enc_all / dec ~ provrdf encode_container / decode_container "
+                                             "(theorems rdfq_single_roundtrip, rdfq_pair_roundtrip are stated over the model)"})
     known = common.load_known_findings()
     known_lines = []
     witnesses = {"C07-F1": custom_name_finding, "C07-F2": alternate_finding}
